@@ -15,6 +15,67 @@ import sys
 import threading
 
 
+import dis
+
+_GLOBAL_WRITES = {dis.opmap[n] for n in ("STORE_GLOBAL", "DELETE_GLOBAL") if n in dis.opmap}
+_OBJECT_WRITES = {dis.opmap[n] for n in ("STORE_ATTR", "STORE_SUBSCR", "DELETE_ATTR", "DELETE_SUBSCR")
+                  if n in dis.opmap}
+
+
+class SimLock:
+    """Stands in for a module-level lock of the package while a pre-emptive block runs.  Only
+    the baton holder executes, so taking the lock needs no atomicity; what matters is that a
+    thread which finds it taken gives the baton away instead of blocking for real (the holder
+    may be parked by the simulator) and becomes runnable again when the lock is released."""
+
+    def __init__(self, pr, real, reentrant):
+        self.pr = pr
+        self.real = real
+        self.reentrant = reentrant
+        self.owner = None
+        self.depth = 0
+
+    def _me(self):
+        cur = self.pr.current
+        if cur is not None and cur.get("thread") is threading.current_thread():
+            return cur
+        return None
+
+    def acquire(self, blocking=True, timeout=-1):
+        me = self._me()
+        if me is None:
+            return self.real.acquire(blocking, timeout)
+        while self.owner is not None and not (self.reentrant and self.owner is me):
+            if not blocking:
+                return False
+            me["blocked"] = self
+            self.pr.lock_waits += 1
+            self.pr._yield(must=True)
+        self.owner = me
+        self.depth += 1
+        return True
+
+    def release(self):
+        me = self._me()
+        if me is None:
+            return self.real.release()
+        self.depth -= 1
+        if self.depth == 0:
+            self.owner = None
+            for s in self.pr.slots:
+                if s.get("blocked") is self:
+                    s["blocked"] = None
+
+    def locked(self):
+        return self.owner is not None or self.real.locked()
+
+    __enter__ = acquire
+
+    def __exit__(self, *a):
+        self.release()
+        return False
+
+
 class Preempt:
     def __init__(self, rng, p, prefix, max_switches=2000, package="func_adl"):
         self.package = package
@@ -26,6 +87,12 @@ class Preempt:
         self.points = 0
         self.slots = []
         self.current = None
+        self.first = None
+        self.opcodes = False  # pre-emption points are bytecodes instead of source lines
+        self.directed = 0.0  # > 0: park threads right before they write shared state
+        self.lock_waits = 0
+        self._locks = []
+        self.stop_after = None  # set by the caller for the stop-and-run schedule
         self.done = threading.Event()
 
     # -- tracing ---------------------------------------------------------------------------
@@ -33,6 +100,12 @@ class Preempt:
         # never inside a module body: the thread holds an import lock there, a REAL lock on
         # which the thread that gets the baton could block for good
         if frame.f_code.co_filename.startswith(self.prefix) and frame.f_code.co_name != "<module>":
+            if self.opcodes:
+                # every BYTECODE of the library is a pre-emption point (a thread switch in the
+                # middle of `counter += 1`); on CPython 3.12 the flag only takes effect once
+                # settrace has been called again from inside the call event
+                frame.f_trace_opcodes = True
+                sys.settrace(self._tracer)
             return self._local
         return None
 
@@ -52,24 +125,66 @@ class Preempt:
             pass
 
     def _local(self, frame, event, arg):
-        if event == "line":
+        if event == ("opcode" if self.opcodes else "line"):
             self.points += 1
-            if self.switches < self.max_switches and self.rng.random() < self.p:
+            if self.opcodes and self.directed and self.switches < self.max_switches:
+                # race-directed: a thread about to WRITE shared state (a module global; now and
+                # then an attribute or an item) is parked there while the others go on - the
+                # schedule that turns `counter += 1` into a lost update
+                op = frame.f_code.co_code[frame.f_lasti]
+                if (op in _GLOBAL_WRITES and self.rng.random() < 0.5) or (
+                        op in _OBJECT_WRITES and self.rng.random() < self.directed):
+                    self._yield(park=True)
+                    return self._local
+            if self.stop_after is not None:
+                # "stop and run": the thread that started runs N lines, is parked there, the
+                # others run to completion, then it goes on - the schedule that finds a narrow
+                # window in a long operation
+                if self.current is self.first:
+                    self.first_points = getattr(self, "first_points", 0) + 1
+                    if self.first_points == self.stop_after:
+                        self._yield(park=True)
+            elif self.switches < self.max_switches and self.rng.random() < self.p:
                 self._yield()
         return self._local
 
     # -- baton -----------------------------------------------------------------------------
     def _runnable(self):
-        return [s for s in self.slots if not s["done"]]
+        return [s for s in self.slots if not s["done"] and s.get("blocked") is None]
 
-    def _yield(self):
+    def _own_locks(self):
+        "Module-level locks of the package become SimLocks for the duration of the block."
+        lock_t, rlock_t = type(threading.Lock()), type(threading.RLock())
+        for name, mod in list(sys.modules.items()):
+            if mod is None or not (name == self.package or name.startswith(self.package + ".")):
+                continue
+            for attr, val in list(vars(mod).items()):
+                if isinstance(val, (lock_t, rlock_t)):
+                    setattr(mod, attr, SimLock(self, val, isinstance(val, rlock_t)))
+                    self._locks.append((mod, attr, val))
+
+    def _restore_locks(self):
+        for mod, attr, val in self._locks:
+            setattr(mod, attr, val)
+        self._locks = []
+
+    def _yield(self, park=False, must=False):
         me = self.current
         cands = self._runnable()
-        if len(cands) < 2:
+        if must:
+            # the current thread cannot go on (it waits for a lock of the package)
+            if not cands:
+                me["blocked"] = None
+                raise RuntimeError("deadlock: every thread of the block waits for a lock")
+        elif len(cands) < 2:
             return
+        if park:
+            me["parked"] = True
+            cands = [c for c in cands if c is not me]
         nxt = cands[self.rng.randrange(len(cands))]
         if nxt is me:
             return
+        nxt["parked"] = False
         self.switches += 1
         self.current = nxt
         nxt["go"].set()
@@ -77,6 +192,7 @@ class Preempt:
         me["go"].clear()
 
     def _body(self, slot):
+        slot["thread"] = threading.current_thread()
         slot["go"].wait()
         slot["go"].clear()
         sys.settrace(self._tracer)
@@ -88,8 +204,13 @@ class Preempt:
             sys.settrace(None)
             slot["done"] = True
             rest = self._runnable()
+            if not rest and any(not x["done"] for x in self.slots):
+                # the others all wait for locks nobody will release: let them find out
+                rest = [x for x in self.slots if not x["done"]]
             if rest:
-                nxt = rest[self.rng.randrange(len(rest))]
+                free = [r for r in rest if not r.get("parked")] or rest  # parked ones go last
+                nxt = free[self.rng.randrange(len(free))]
+                nxt["parked"] = False
                 self.current = nxt
                 nxt["go"].set()
             else:
@@ -98,17 +219,29 @@ class Preempt:
     def run(self, fns):
         "Run the callables to completion under one seeded interleaving; returns their outcomes."
         self._preimport()
+        self._own_locks()
+        try:
+            return self._run(fns)
+        finally:
+            self._restore_locks()
+
+    def _run(self, fns):
         self.slots = [{"fn": f, "go": threading.Event(), "done": False, "result": None}
                       for f in fns]
         ths = [threading.Thread(target=self._body, args=(s,), name=f"preempt-{i}")
                for i, s in enumerate(self.slots)]
         for t in ths:
             t.start()
-        first = self.slots[self.rng.randrange(len(self.slots))]
+        i0 = self.rng.randrange(len(self.slots))
+        first = self.slots[i0]
+        if getattr(self, "stop_counts", None):
+            self.stop_after = max(1, int(self.stop_frac * max(1, self.stop_counts[i0])))
+        self.first = first
         self.current = first
         first["go"].set()
-        if not self.done.wait(120):
-            raise RuntimeError("pre-emptive block did not finish")
+        if not self.done.wait(60):
+            raise RuntimeError("pre-emptive block did not finish: a thread holding the baton is "
+                               "blocked on something the simulator does not own")
         for t in ths:
             t.join(10)
         return [s["result"] for s in self.slots]
